@@ -84,6 +84,107 @@ def reorganize {α} (numEnv : Nat) (m : List (List α)) : List (List (Option α)
 
 end Ring
 
+/-! ### vectorised multi-agent experiences: `MultiAgentReplayBuffer._reorganize_dicts` (per-environment split)
+
+An experience field of a vectorised `save_to_memory` call is a dict agent ↦ value (an association list, keys
+distinct); a value is an array (the list of its per-environment rows; a row is an opaque `α`), a dict of arrays or
+a tuple of arrays.  The same for ONE environment: a row, a dict of rows, a tuple of rows. -/
+namespace Ring
+section Reorg
+
+abbrev Val (κ α : Type) := List α ⊕ (List (κ × List α) ⊕ List (List α))
+@[match_pattern, reducible] def Val.arr {κ α : Type} (rows : List α) : Val κ α := Sum.inl rows
+@[match_pattern, reducible] def Val.dict {κ α : Type} (kv : List (κ × List α)) : Val κ α := Sum.inr (Sum.inl kv)
+@[match_pattern, reducible] def Val.tup {κ α : Type} (xs : List (List α)) : Val κ α := Sum.inr (Sum.inr xs)
+
+abbrev Ent (κ α : Type) := α ⊕ (List (κ × α) ⊕ List α)
+@[match_pattern, reducible] def Ent.arr {κ α : Type} (row : α) : Ent κ α := Sum.inl row
+@[match_pattern, reducible] def Ent.dict {κ α : Type} (kv : List (κ × α)) : Ent κ α := Sum.inr (Sum.inl kv)
+@[match_pattern, reducible] def Ent.tup {κ α : Type} (xs : List α) : Ent κ α := Sum.inr (Sum.inr xs)
+
+/-- one field of a vectorised call: agent ↦ value -/
+abbrev Field (κ α : Type) := List (κ × Val κ α)
+/-- one field of ONE environment: agent ↦ entry -/
+abbrev EnvField (κ α : Type) := List (κ × Ent κ α)
+/-- one stored transition: one `EnvField` per field, in field order -/
+abbrev Trans (κ α : Type) := List (EnvField κ α)
+
+variable {κ α : Type}
+
+/-- all-or-nothing: the list of values if every element is defined -/
+def optAll {β : Type} : List (Option β) → Option (List β)
+  | [] => some []
+  | x :: r =>
+    match x, optAll r with
+    | some a, some as => some (a :: as)
+    | _, _ => none
+
+/-- column `i` (environment `i`) of one value; `none` = IndexError (an array with fewer than `i+1` rows) -/
+def Val.col (i : Nat) : Val κ α → Option (Ent κ α)
+  | Val.arr rows => match rows[i]? with | none => none | some r => some (Ent.arr r)
+  | Val.dict kv =>
+    match optAll (kv.map (fun p => match p.2[i]? with | none => none | some r => some (p.1, r))) with
+    | none => none
+    | some l => some (Ent.dict l)
+  | Val.tup xs =>
+    match optAll (xs.map (fun v => v[i]?)) with
+    | none => none
+    | some l => some (Ent.tup l)
+
+/-- column `i` of one field: every agent's entry for environment `i`, keys and key order kept -/
+def fieldCol (i : Nat) (f : Field κ α) : Option (EnvField κ α) :=
+  optAll (f.map (fun p => match Val.col i p.2 with | none => none | some e => some (p.1, e)))
+
+/-- the array whose length decides the number of environments: the value itself, the first member of a dict,
+    member 0 of a tuple -/
+def Val.first : Val κ α → Option (List α)
+  | Val.arr rows => some rows
+  | Val.dict kv => match kv with | [] => none | p :: _ => some p.2
+  | Val.tup xs => xs.head?
+
+/-- `num_entries`: read off the FIRST value of the FIRST field only -/
+def numEntries (args : List (Field κ α)) : Option Nat :=
+  match args with
+  | [] => none
+  | f :: _ => match f with
+    | [] => none
+    | p :: _ => match Val.first p.2 with | none => none | some a => some a.length
+
+/-- the transition of environment `i`: column `i` of every field -/
+def envTransition (args : List (Field κ α)) (i : Nat) : Option (Trans κ α) :=
+  optAll (args.map (fieldCol i))
+
+/-- the per-environment transitions of one vectorised call, in environment order (`none` = the call raises) -/
+def perEnv (args : List (Field κ α)) : Option (List (Trans κ α)) :=
+  match numEntries args with
+  | none => none
+  | some n => optAll ((List.range n).map (envTransition args))
+
+/-- `m` lists, the `j`-th holding member `j` of every element of `es`, in order -/
+def transposeTo {β : Type} (m : Nat) : List (List β) → List (List β)
+  | [] => List.replicate m []
+  | e :: es => List.zipWith (fun x r => x :: r) e (transposeTo m es)
+
+/-- `_reorganize_dicts`: `results[field][env]` -/
+def reorganizeDicts (args : List (Field κ α)) : Option (List (List (EnvField κ α))) :=
+  match perEnv args with
+  | none => none
+  | some envs => some (transposeTo args.length envs)
+
+/-! shape / key normalisation of single-agent transitions (`data.py`, reshape loop of `ReplayBuffer.add`) -/
+
+/-- `Transition.__post_init__` on reward / done: a 0-dimensional value gets one trailing axis -/
+def normLeaf (shape : List Nat) : List Nat := if shape.length = 0 then shape ++ [1] else shape
+
+/-- reshape loop of `ReplayBuffer.add` for `n` transitions: a 1-dimensional leaf becomes `(n, 1)` -/
+def addLeafShape (n : Nat) (shape : List Nat) : List Nat := if shape.length = 1 then [n, 1] else shape
+
+/-- keys of the TensorDict made from a tuple observation of `n` members -/
+def tupleKeys (n : Nat) : List String := (List.range n).map (fun i => "tuple_obs_" ++ toString i)
+
+end Reorg
+end Ring
+
 /-! ### line protocol -/
 namespace Ring
 open Util
@@ -91,6 +192,48 @@ open Util
 structure IOState where
   buf : Buf := Buf.empty 1
   deq : Deq := Deq.empty 1
+
+/-! wire format of `reorg` / `penv`: `N field^N`, field = `M (key val)^M`,
+    val = `A n row^n` | `D m (key n row^n)^m` | `T m (n row^n)^m`; keys and rows are naturals -/
+abbrev P (β : Type) := List String → Option (β × List String)
+
+def pNat : P Nat
+  | [] => none
+  | w :: r => match parseNat? w with | none => none | some n => some (n, r)
+
+def pRep {β : Type} (p : P β) : Nat → P (List β)
+  | 0, ws => some ([], ws)
+  | n + 1, ws =>
+    match p ws with
+    | none => none
+    | some (x, r) => match pRep p n r with | none => none | some (xs, r') => some (x :: xs, r')
+
+def pCounted {β : Type} (p : P β) : P (List β) := fun ws =>
+  match pNat ws with | none => none | some (n, r) => pRep p n r
+
+def pPair {β γ : Type} (p : P β) (q : P γ) : P (β × γ) := fun ws =>
+  match p ws with
+  | none => none
+  | some (x, r) => match q r with | none => none | some (y, r') => some ((x, y), r')
+
+def pVal : P (Val Nat Nat)
+  | "A" :: r => match pCounted pNat r with | none => none | some (x, r') => some (Val.arr x, r')
+  | "D" :: r => match pCounted (pPair pNat (pCounted pNat)) r with | none => none | some (x, r') => some (Val.dict x, r')
+  | "T" :: r => match pCounted (pCounted pNat) r with | none => none | some (x, r') => some (Val.tup x, r')
+  | _ => none
+
+def pArgs : P (List (Field Nat Nat)) := pCounted (pCounted (pPair pNat pVal))
+
+def showEnt : Ent Nat Nat → String
+  | Ent.arr r => s!"A {r}"
+  | Ent.dict kv => s!"D {kv.length}" ++ String.join (kv.map (fun p => s!" {p.1} {p.2}"))
+  | Ent.tup xs => s!"T {xs.length}" ++ String.join (xs.map (fun r => s!" {r}"))
+
+def showEnvField (f : EnvField Nat Nat) : String :=
+  s!"{f.length}" ++ String.join (f.map (fun p => s!" {p.1} " ++ showEnt p.2))
+
+def showMatrix (m : List (List (EnvField Nat Nat))) : String :=
+  s!"{m.length}" ++ String.join (m.map (fun row => s!" {row.length}" ++ String.join (row.map (fun f => " " ++ showEnvField f))))
 
 def showSlots (l : List (Option Nat)) : String := " ".intercalate (l.map showOptNat)
 
@@ -124,6 +267,14 @@ def step (s : IOState) : List String → IOState × String
   | ["dlen"] => (s, toString s.deq.items.length)
   | ["dcounter"] => (s, toString s.deq.counter)
   | ["ddump"] => (s, showNats s.deq.items)
+  | "reorg" :: ws =>
+    match pArgs ws with
+    | some (args, []) => (s, match reorganizeDicts args with | none => "reject" | some m => showMatrix m)
+    | _ => (s, "bad-op")
+  | "penv" :: ws =>
+    match pArgs ws with
+    | some (args, []) => (s, match perEnv args with | none => "reject" | some m => showMatrix m)
+    | _ => (s, "bad-op")
   | _ => (s, "bad-op")
 
 end Ring
